@@ -931,7 +931,15 @@ func (d *drv) runBig(c *fileCase) {
 	win = append(win, [2]int64{0, c.FileSize})
 	d.levelA(in, chunks, "real-manifestize", win, true)
 	progress(t0, "big: A done")
-	d.levelB(in, cloneChunks(chunks), "real-manifestize", true, append(randomWindows(rng, in, 30, c.FileSize+2), [2]int64{0, c.FileSize}))
+	// one read of the whole file (10 000+ chunk fetches) and a few short windows
+	wb := [][2]int64{{0, c.FileSize}}
+	for _, w := range randomWindows(rng, in, 12, c.FileSize+2) {
+		if w[1]-w[0] > 2000 {
+			w[1] = w[0] + 2000
+		}
+		wb = append(wb, w)
+	}
+	d.levelB(in, cloneChunks(chunks), "real-manifestize", true, wb)
 	progress(t0, "big: B done")
 	var sw [][2]int64
 	for _, w := range randomWindows(rng, in, 40, c.FileSize) {
@@ -963,7 +971,7 @@ func main() {
 	r := lib.Start("C17", "exploration")
 	r.SetRule("a case is a chunk list (offset,size,mtime,list order; plain/gzip/encrypted chunks; FileId string or Fid struct) plus a file size; " +
 		"bounded-exhaustive: every ordered tuple of <=3 chunks over offsets 0..7 x sizes 1..4 with the tuple order as overlay (mtime) order, " +
-		"plus a seeded sample of 4-chunk tuples (quick 4 000, thorough 200 000), seeded random lists of <=40 chunks over offsets 0..4095 and (thorough) one list of 10 403 chunks for the real MaybeManifestize; " +
+		"plus a seeded sample of 4-chunk tuples (quick 4 000, thorough 100 000), seeded random lists of <=40 chunks over offsets 0..4095 and (thorough) one list of 10 403 chunks for the real MaybeManifestize; " +
 		"every window [a,b) of small files / 200 random windows of large ones. distinct = distinct (file size, chunk offsets, sizes, mtimes, encodings in list order); " +
 		"non-trivial = at least two chunks overlap or the file has a hole")
 	r.Assume("chunk modification times within one list are distinct (for equal mtimes 'newest' is not defined by the statement)")
@@ -1036,7 +1044,7 @@ func main() {
 				c := exhCase(r.Seed, j.kind, j.L, j.idx, j.nOff, j.nSize)
 				h := sha1.Sum([]byte(fmt.Sprintf("plan/%d/%s/%d/%d", r.Seed, j.kind, j.L, j.idx)))
 				sel := int(h[0]) | int(h[1])<<8
-				pl := plan{b: sel%32 == 0, c: sel%64 == 1, manifest: sel%128 == 2}
+				pl := plan{b: sel%64 == 0, c: sel%128 == 1, manifest: sel%128 == 2}
 				if r.Thorough() && j.L == 4 {
 					pl = plan{b: sel%128 == 0, c: sel%256 == 1, manifest: sel%512 == 2}
 				}
@@ -1071,10 +1079,10 @@ func main() {
 	full("exh2", 2, 8, 4)
 	full("exh3", 3, 8, 4)
 	if os.Getenv("VERIF_C17_MAXL") == "" {
-		sample("exh4", 4, r.Pick(4000, 200000))
+		sample("exh4", 4, r.Pick(4000, 100000))
 	}
 	r.Note("bounded_exhaustive", "every ordered tuple of <=3 chunks over offsets 0..7 x sizes 1..4; level A on every window of every list")
-	nRandom := r.Pick(60, 1500)
+	nRandom := r.Pick(60, 600)
 	if v := os.Getenv("VERIF_C17_NRANDOM"); v != "" { // development aid only
 		fmt.Sscan(v, &nRandom)
 	}
